@@ -930,6 +930,7 @@ func IsInternal(addr string) bool {
 		// because SplitHostPort didn't do it for us
 		host = strings.Trim(host, "[]")
 	}
+	host = strings.ToLower(host)
 
 	for _, tld := range privateTLDs {
 		if strings.HasSuffix(host, tld) {
